@@ -1,10 +1,142 @@
-import Driver.Common
-/-! Judge for C07: not built yet (stub so that the target exists). -/
-open Lean Driver
+import Driver.PX
+open Lean Driver EgVerif.Proxy EgVerif.Payload
 
 namespace Driver.C07
+open Driver.PX
 
-def judges : List (String × Judge) := []
+def outcomeStr : Outcome → String
+  | .stream => "stream"
+  | .ok n => s!"ok:{n}"
+  | .tooLarge => "tooLarge"
+  | .shortRead => "shortRead"
+
+/-! ## pure judge (pkg/protocols/httpprot harness): Request/Response.FetchPayload -/
+
+def judgeFetch : Judge := liftJudge fun input obs => do
+  match obsPanic obs with
+  | some m => pure { agree := false, spec := false, sig := "panic:FetchPayload", note := m }
+  | none =>
+  if optStr obs "error" != "" then throw "harness rejected the input"
+  let dir := optStr input "dir" "req"
+  let limit := optInt input "limit"
+  let declared := optInt input "declared" (-1)
+  let actual := (optInt input "actual").toNat
+  let head := optBool input "head" && dir == "resp"
+  let dflt := optInt obs "default" defaultMax
+  let src : Src := ⟨declared, actual⟩
+  let want := if dir == "resp" then fetchResp dflt limit head src else fetch dflt limit src
+  let gotS := optStr obs "outcome"
+  let n := (optInt obs "n").toNat
+  let got : Option Outcome := match gotS with
+    | "stream" => some .stream
+    | "ok" => some (.ok n)
+    | "tooLarge" => some .tooLarge
+    | "shortRead" => some .shortRead
+    | _ => none
+  let lim := Spec.limitInForce dflt limit 0
+  let consumed := (optInt obs "consumed").toNat
+  -- the reply to HEAD has no body: its declared length is not a body size
+  let srcSpec : Src := if head then ⟨0, 0⟩ else src
+  let (spec, sig) : Bool × String := match got with
+    | none => (false, "fetch:unexpected-error:" ++ dir)
+    | some o =>
+      if !Spec.fetchOK lim srcSpec o then
+        (false, "fetch:" ++ dir ++ ":" ++ (if head then "head:" else "") ++ gotS ++
+          (if lim < 0 then ":stream-limit" else if Spec.isShort srcSpec then ":short-body"
+           else if (Spec.size srcSpec : Int) > lim then ":over-limit" else if (Spec.size srcSpec : Int) == lim then ":at-limit" else ":under-limit"))
+      else if gotS == "ok" && !optBool obs "content" then (false, "fetch:content-corrupted")
+      else if gotS == "tooLarge" && declared > lim && consumed != 0 then (false, "fetch:declared-too-large-but-read")
+      else (true, "")
+  let rel := if lim < 0 then "stream" else if (Spec.size src : Int) > lim then "over" else if (Spec.size src : Int) == lim then "at" else "under"
+  pure { agree := got == some want, spec := spec, sig := sig,
+         expected := Json.mkObj [("outcome", outcomeStr want)],
+         tags := [dir, "size-" ++ rel, if declared < 0 then "chunked" else if Spec.isShort src then "lying-short"
+                    else if declared.toNat < actual then "lying-long" else "declared", "model:" ++ (outcomeStr want).takeWhile (· != ':')]
+                 ++ (if limit == 0 then ["default-limit"] else []) ++ (if head then ["head"] else []),
+         nontrivial := rel != "under" || Spec.isShort src }
+
+/-! ## end-to-end judge (pkg/object/httpserver loopback harness) -/
+
+def judgeE2E : Judge := liftJudge fun input obs => do
+  let sc := parseScenario input
+  match obsPanic obs with
+  | some m => pure { agree := false, spec := false, sig := "panic:e2e", note := m }
+  | none =>
+  if optStr obs "error" != "" then
+    return { agree := false, spec := true, note := "harness: " ++ optStr obs "error", nontrivial := false, tags := ["harness-error"] }
+  let o := parseOracle obs
+  let hits := (optInt obs "hits").toNat
+  let some c := parseSeenResp obs | throw "no client observation"
+  let bSeen := parseSeenReq obs
+  let b := build sc o defaultMax
+  let res := runModel b o.canon
+  let isHead := sc.method == "HEAD"
+  let nobody := isHead || bodylessStatus c.status
+  -- sources, as the statement sees them
+  let reqSrc : Src := ⟨b.q.declared, b.q.body.len⟩
+  let respWire := (wireSym sc.bBody o.back)
+  let respSrc : Src := if isHead || bodylessStatus sc.bStatus then ⟨0, 0⟩ else
+    match sc.bBody.enc with
+    | "lie" => ⟨sc.bBody.decl, respWire.len⟩
+    | "cl" => ⟨respWire.len, respWire.len⟩
+    | _ => ⟨-1, respWire.len⟩
+  let reqLim := Spec.limitInForce defaultMax sc.pathMax sc.serverMax
+  let respLim := Spec.limitInForce defaultMax sc.poolMax sc.proxyMax
+  -- agreement with the model
+  let agree : Bool := match res with
+    | .early st => hits == 0 && c.status == st
+    | .adaptorFailed => hits == 0 && c.status == 503
+    | .proxied seen cl ok =>
+      hits ≥ 1 && c.status == cl.status &&
+      (match bSeen with | some bs => bs.bodySum == seen.body.sum | none => false) &&
+      (nobody || !ok || cl.payload.isStream && Spec.isShort respSrc || c.bodySum == cl.payload.content.sum)
+  let expected := match res with
+    | .early st => Json.mkObj [("early", st)]
+    | .adaptorFailed => Json.mkObj [("adaptorFailed", true)]
+    | .proxied seen cl ok => Json.mkObj [("backendBodySum", seen.body.sum), ("status", cl.status), ("proxyOK", ok),
+        ("clientBodySum", cl.payload.content.sum)]
+  -- the property on the observation
+  let contacted := hits ≥ 1
+  let reqOK := Spec.requestOK reqLim reqSrc (if c.status == 413 || c.status == 400 then c.status else 0) contacted
+  let intactAtBackend := match bSeen with
+    | some bs => bs.bodySum == b.q.body.sum && bs.bodyLen == b.q.body.len
+    | none => false
+  let delivered := !nobody && c.decSum == o.back.sum
+  let sig : String :=
+    if c.err != "" then "e2e:unreadable:" ++ c.err
+    else if !reqOK then
+      "e2e:request:" ++ (if c.status == 413 || c.status == 400 then toString c.status else "passed") ++ ":" ++
+        (if contacted then "forwarded" else "not-forwarded") ++
+        (if reqLim < 0 then ":stream" else if Spec.isShort reqSrc then ":short" else if (Spec.size reqSrc : Int) > reqLim then ":over" else ":within")
+        ++ ":" ++ sc.body.enc
+    else if contacted && !Spec.isShort reqSrc && !intactAtBackend then "e2e:request:body-not-intact:" ++ sc.body.enc
+    else if !contacted then ""
+    else if respLim < 0 then
+      -- stream mode: an honest body of any size arrives intact; a lying backend must not look like a clean success
+      if Spec.isShort respSrc then (if c.frameOK && c.status < 400 && !nobody then "e2e:response:short-body-clean-success:stream" else "")
+      else if c.status != sc.bStatus then s!"e2e:response:status:{c.status}:stream"
+      else if !nobody && !(c.frameOK && c.decSum == o.back.sum) then "e2e:response:stream-not-intact"
+      else ""
+    else if !Spec.responseOK respLim respSrc sc.bStatus c.status delivered
+        && !(nobody && c.status == sc.bStatus && !Spec.isShort respSrc && (Spec.size respSrc : Int) ≤ respLim) then
+      "e2e:response:" ++ (if c.status ≥ 500 then "5xx" else if c.status == sc.bStatus then "backend-status" else toString c.status) ++ ":" ++
+        (if delivered then "delivered" else "withheld") ++
+        (if Spec.isShort respSrc then ":short" else if (Spec.size respSrc : Int) > respLim then ":over" else ":within") ++ ":" ++ sc.bBody.enc
+    else if !c.frameOK then "e2e:response:framing:" ++ c.frameErr
+    else ""
+  let rel (lim : Int) (s : Src) : String :=
+    if lim < 0 then "stream" else if Spec.isShort s then "short" else if (Spec.size s : Int) > lim then "over"
+    else if (Spec.size s : Int) == lim then "at" else "under"
+  let lvl (inner outer : Int) : String := if inner != 0 then "inner" else if outer != 0 then "outer" else "default"
+  let sig := if sig != "" && isHead then sig ++ "+head" else sig
+  pure { agree := agree, spec := sig == "", sig := sig, expected := expected,
+         tags := ["req-" ++ rel reqLim reqSrc, "resp-" ++ rel respLim respSrc, "req-enc:" ++ sc.body.enc, "resp-enc:" ++ sc.bBody.enc,
+                  "req-limit-level:" ++ lvl sc.pathMax sc.serverMax, "resp-limit-level:" ++ lvl sc.poolMax sc.proxyMax,
+                  s!"client-status:{c.status}", if contacted then "backend-contacted" else "backend-not-contacted"]
+                 ++ (if isHead then ["head"] else []),
+         nontrivial := rel reqLim reqSrc != "under" || (contacted && rel respLim respSrc != "under") }
+
+def judges : List (String × Judge) := [("fetch", judgeFetch), ("e2e", judgeE2E)]
 
 end Driver.C07
 
